@@ -176,6 +176,9 @@ impl Ratio {
 /// huge liquidity for next to nothing.
 pub fn limit_liquidities(tick_current: i32, sqrt_price: u128, lower: i32, upper: i32) -> Vec<u128> {
     let (pl, pu) = (sqrt_price_of_tick(lower), sqrt_price_of_tick(upper));
+    if pl >= pu {
+        return Vec::new(); // an inverted or empty range (only a defective program creates one) has no such liquidity
+    }
     let pr = sqrt_price.clamp(pl, pu);
     let mut sides: Vec<(BigUint, BigUint)> = Vec::new();
     if tick_current < upper {
